@@ -439,6 +439,7 @@ func runFetcherTier(c *vh.Ctx) {
 	res := c.Res
 	reps := c.N(3, 25)
 	for _, sc := range fetcherScenarios() {
+		journal(fmt.Sprintf("FETCHER %s %d", sc.name, c.Seed))
 		v := runFetcherScenario(sc.name, c.Seed, reps)
 		res.DistN("fetcher-scenario-runs", reps)
 		res.Count(fmt.Sprintf("FETCHER %s %d", sc.name, c.Seed), true)
